@@ -26,6 +26,7 @@ type pktScenario struct {
 	ReadErrs  int        `json:"injected_read_errors,omitempty"`
 	plan      *netPlan
 	exitDelay time.Duration
+	outGrace  time.Duration // slow stdout: records of frames this close to the exit may be lost
 }
 
 type pktKnobs struct {
@@ -298,6 +299,49 @@ func oracleDetection(out *Out, prop string, sc *pktScenario, cr *CmdResult) {
 		out.violate(prop+".output-parse", sig, "stdout is not a sequence of complete records: %v", firstN(perrs, 4))
 	}
 	must, may := expectedFromDeliveries(sh, cr)
+	// records whose write to stdout failed (injected EAGAIN) are lost legitimately: exactly those
+	if len(cr.FailedOut) > 0 {
+		var lost []byte
+		for _, f := range cr.FailedOut {
+			lost = append(lost, f.Data...)
+		}
+		lostRecs, _ := parseOutput(sh, s.JSON, lost)
+		lm := recMultiset(lostRecs)
+		var keep []record
+		for _, r := range must {
+			if lm[r.String()] > 0 {
+				lm[r.String()]--
+				may = append(may, r)
+				continue
+			}
+			keep = append(keep, r)
+		}
+		must = keep
+	}
+	// with a slow stdout, records of frames that arrived shortly before the exit may still be
+	// queued behind stalled writes when the scan is torn down
+	if grace := sc.outGrace; grace > 0 {
+		closeT := map[int]time.Duration{}
+		for _, so := range cr.Socks {
+			closeT[so.ID] = so.CloseT
+		}
+		lateKeys := map[string]int{}
+		for _, d := range cr.Dels {
+			if rec, ok := sh.replyRecord(d.Data); ok && d.T >= closeT[d.Sock]-grace {
+				lateKeys[rec.String()]++
+			}
+		}
+		var keep []record
+		for _, r := range must {
+			if lateKeys[r.String()] > 0 {
+				lateKeys[r.String()]--
+				may = append(may, r)
+				continue
+			}
+			keep = append(keep, r)
+		}
+		must = keep
+	}
 	missing, phantom := diffRecords(recs, must, may)
 	out.Stats["records"] += len(recs)
 	out.Stats["reply_shaped_delivered"] += len(must)
